@@ -351,7 +351,7 @@ package fit
 //@   locals rangeindex int, fdef fieldDef, f *field
 //@@ what is written for each field: its number, the size rule above and its base type, three bytes
 //@   callsite Write [field-def] fdef.num == f.num && fdef.size == defSize(f) && fdef.btype == fbase(f.t)
-//@   requires e.w != nil && (isLE(e.arch) || isBE(e.arch)) && wf_encdef(def) && 0 <= wpos(e.w) && wpos(e.w) < 1<<32
+//@   requires e.w != nil && (isLE(e.arch) || isBE(e.arch)) && wf_encdef(def)
 //@@ a definition record: header 0x40|local type, reserved 0, architecture, global number in that architecture,
 //@@ field count, then (number, size, base type) per field in the order of the definition
 //@   ensures [length] err == nil ==> wpos(e.w) == old(wpos(e.w))+6+3*len(def.fields)
@@ -378,6 +378,25 @@ package fit
 
 //@@ assumed (reflection over the container structs, a map, sort.Slice: outside the supported subset): the message
 //@@ writers only append to the encoder's output
+//@ func (e *encoder) writeField(value reflect.Value, f *field) (err error)
+//@   props C05 C06
+//@   locals i byte, max byte
+//@   requires e.w != nil && (isLE(e.arch) || isBE(e.arch)) && f != nil && rvvalid(value)
+//@   requires [array] farray(f.t) ==> fkind(f.t) == 0 && rvcls(value) == 5
+//@   requires [kinds] !farray(f.t) ==> (fkind(f.t) == 1 || fkind(f.t) == 2 ==> typeis[time.Time](ifaceOf(value)) && timeInRange(ifaceOf(value).(time.Time))) && (fkind(f.t) == 3 ==> typeis[Latitude](ifaceOf(value))) && (fkind(f.t) == 4 ==> typeis[Longitude](ifaceOf(value)))
+//@   requires [strings] fkind(f.t) == 0 && fbase(f.t) == types.BaseString ==> f.length >= 1
+//@   ensures [append] wpos(e.w) >= old(wpos(e.w)) && (forall k in 0..old(wpos(e.w)) :: outb(e.w, k) == old(outb(e.w, k)))
+//@   assigns wpos(e.w), outb(e.w, *)
+//@@ an array field always occupies its full profile length: the elements present, then the base type's invalid value
+//@   loop 0 invariant [append] i <= max && wpos(e.w) >= old(wpos(e.w)) && (forall k in 0..old(wpos(e.w)) :: outb(e.w, k) == old(outb(e.w, k)))
+//@   loop 0 assigns wpos(e.w), outb(e.w, *)
+//@   loop 0 decreases int(max) - int(i)
+//@   loop 0 dispatches encodeValue
+//@   loop 1 invariant [append] i <= f.length && wpos(e.w) >= old(wpos(e.w)) && (forall k in 0..old(wpos(e.w)) :: outb(e.w, k) == old(outb(e.w, k)))
+//@   loop 1 assigns wpos(e.w), outb(e.w, *)
+//@   loop 1 decreases int(f.length) - int(i)
+//@   loop 1 dispatches encodeValue
+
 //@ func (e *encoder) encodeDefAndDataMesg(mesg reflect.Value) (err error)
 //@   props C05
 //@   trusted
@@ -392,6 +411,34 @@ package fit
 //@   assigns wpos(e.w), outb(e.w, *)
 
 //@ spec hdrLen(h Header) int := ite(h.Size == 14, 14, 12)
+
+//@@ C06/C07: a string goes out as exactly `size` bytes: the text (cut to size-1 bytes), then NULs
+//@ func encodeString(str string, size byte) (r []byte, err error)
+//@   props C05 C06 C07
+//@   requires size >= 1
+//@   ensures [len] err == nil ==> len(r) == int(size) && fresh(r)
+//@   ensures [text] err == nil ==> forall k in 0..int(size) :: r[k] == ite(k < len(str) && k < int(size)-1, str[k], byte(0))
+//@@ C07: every string a decode can produce must be encodable; invalid UTF-8 is refused (finding D8)
+//@   ensures [accepts] {C07} err == nil
+//@   assigns nothing
+
+//@@ the four-byte value v in the encoder's byte order at position p of its output
+//@ pred out32(e *encoder, p int, v uint32) := outb(e.w, p) == ite(isLE(e.arch), byte(v), byte(v>>24)) && outb(e.w, p+1) == ite(isLE(e.arch), byte(v>>8), byte(v>>16)) &&
+//@  | outb(e.w, p+2) == ite(isLE(e.arch), byte(v>>16), byte(v>>8)) && outb(e.w, p+3) == ite(isLE(e.arch), byte(v>>24), byte(v))
+//@ pred timeInRange(t time.Time) := 0 <= tns(t) && tns(t) < 1000000000 && tsec(t) >= 631065600 && tsec(t) < 631065600+(1<<32)
+
+//@ func (e *encoder) encodeValue(value interface{}, f *field) (err error)
+//@   props C05 C06
+//@   requires e.w != nil && (isLE(e.arch) || isBE(e.arch)) && f != nil
+//@   requires [kinds] (fkind(f.t) == 1 || fkind(f.t) == 2 ==> typeis[time.Time](value) && timeInRange(value.(time.Time))) && (fkind(f.t) == 3 ==> typeis[Latitude](value)) && (fkind(f.t) == 4 ==> typeis[Longitude](value))
+//@   requires [strings] fkind(f.t) == 0 && fbase(f.t) == types.BaseString ==> f.length >= 1
+//@@ C06: the fixed 4-byte kinds go out as the value the decoder reads back (FIT seconds, local = UTC seconds + zone offset, semicircles)
+//@   ensures [time-utc] err == nil && fkind(f.t) == 1 ==> wpos(e.w) == old(wpos(e.w))+4 && out32(e, old(wpos(e.w)), uint32(tsec(value.(time.Time))-631065600))
+//@   ensures [time-local] err == nil && fkind(f.t) == 2 ==> wpos(e.w) == old(wpos(e.w))+4 && out32(e, old(wpos(e.w)), uint32(tsec(value.(time.Time))-631065600+tzoff(value.(time.Time))))
+//@   ensures [lat] err == nil && fkind(f.t) == 3 ==> wpos(e.w) == old(wpos(e.w))+4 && out32(e, old(wpos(e.w)), uint32(value.(Latitude).semicircles))
+//@   ensures [lng] err == nil && fkind(f.t) == 4 ==> wpos(e.w) == old(wpos(e.w))+4 && out32(e, old(wpos(e.w)), uint32(value.(Longitude).semicircles))
+//@   ensures [append] wpos(e.w) >= old(wpos(e.w)) && (forall k in 0..old(wpos(e.w)) :: outb(e.w, k) == old(outb(e.w, k)))
+//@   assigns wpos(e.w), outb(e.w, *)
 
 //@ func Encode(w io.Writer, file *File, arch binary.ByteOrder) (err error)
 //@   props C05 C07
